@@ -62,12 +62,13 @@ def score_of(hyp, vw, lw):
     return hyp["vis"] ** vw * (hyp["lm"] ** lw if hyp["lm"] else 1)
 
 
-def _final_part(net):
-    """normalize_cn / sorted_cn_paths / best_cn_path on (a copy of) the last network"""
+def _final_part(net, normed=None):
+    """normalize_cn / sorted_cn_paths / best_cn_path on (a copy of) the last network; normed: the normalised network as the
+    API itself returned it (produce_cn_from_boh with normalize=True), used instead of a direct normalize_cn call"""
     fin = {"outcome": "ok", "norm": [], "nsum": [], "has_paths": False, "pscale": 0, "paths": [], "best": []}
     try:
         sums = [sum(col.values()) for col in net]
-        norm = CN.normalize_cn(copy.deepcopy(net))
+        norm = CN.normalize_cn(copy.deepcopy(net)) if normed is None else normed
         fin["norm"] = project_net(norm, 10000)
         fin["nsum"] = [_fixed(sum(col.values()), 1000000) for col in norm]
         fin["best"] = ids_of(CN.best_cn_path(copy.deepcopy(norm)))
@@ -127,7 +128,17 @@ def replay_history(case):
     while len(rec["outcome"]) < len(hyps):
         rec["nets"].append([])
         rec["outcome"].append("not-run")
-    rec["fin"] = _final_part(last_ok)
+    normed = None
+    if mode == "boh" and rec["outcome"] and all(o == "ok" for o in rec["outcome"]):
+        # the bag API normalises by itself: take ITS normalised network (not a separate normalize_cn call)
+        try:
+            boh = BagOfHypotheses()
+            for g in hyps:
+                boh.add(text_of(g["h"]), math.log(g["vis"]), math.log(g["lm"]) if g["lm"] else None)
+            normed = CN.produce_cn_from_boh(boh, visual_weight=float(vw), lm_weight=float(lw), normalize=True)
+        except Exception:
+            normed = None
+    rec["fin"] = _final_part(last_ok, normed)
     rec["single"] = _single_part(hyps[0], mode, vw, lw)
     return rec
 
